@@ -1,6 +1,7 @@
 """C10 - filtered log reads return exactly the matching messages, in file order."""
 import itertools
 import json
+import os
 import struct
 
 import canon
@@ -30,8 +31,36 @@ def read_filtered(path, types, tr, sources, max_bytes, flags, require_p1=False, 
                 mt = set(enums)
         if isinstance(sources, list) and len(sources) == 1 and style % 2 == 1:
             sources = sources[0]
-        r = MixedLogReader(path, num_threads=1, time_range=tr, source_ids=sources, max_bytes=max_bytes, message_types=mt, **kw)
+        fobj = None
+        if style // 6 % 3 == 2:
+            # the reader is given an open file object, and a second reader shares it and is read alternately
+            fobj = open(path, 'rb')
+            r = MixedLogReader(fobj, num_threads=1, time_range=tr, source_ids=sources, max_bytes=max_bytes, message_types=mt, **kw)
+            other = MixedLogReader(fobj, num_threads=1, return_header=True, return_payload=False)
+        else:
+            r = MixedLogReader(path, num_threads=1, time_range=tr, source_ids=sources, max_bytes=max_bytes, message_types=mt, **kw)
+            other = None
         out = []
+        if style // 6 % 3 != 0:
+            # something else uses the reader's file between two reads: parse_entry_at_index() (as the analysis tool does), or
+            # the second reader on the same file object
+            entries = [e for e in r.get_index()] if style // 6 % 3 == 1 else []
+            k = 0
+            while True:
+                try:
+                    out.append(r.read_next(require_p1_time=require_p1))
+                except StopIteration:
+                    break
+                if other is not None:
+                    try:
+                        other.read_next()
+                    except StopIteration:
+                        other.rewind()
+                elif entries:
+                    r.parse_entry_at_index(entries[(7 * k + 3) % len(entries)])
+                    k += 1
+            (fobj or r.input_file).close()
+            return ('ok', out)
         if style % 2 == 1 and not require_p1:
             out = [x for x in r]          # the iterator protocol
         while not (style % 2 == 1 and not require_p1):
@@ -127,7 +156,7 @@ def one_case(ctx, data, path, msgs, lines, pending, flags=None, fixed=None):
     if flags is None:
         flags = tuple(rng.random() < 0.6 for _ in range(5))
     require_p1 = False      # read_next(require_p1_time=...) is not one of the property's criteria (a NaN P1 time counts as present there)
-    style = (fixed or {}).get('style', rng.randrange(6))
+    style = (fixed or {}).get('style', rng.randrange(6) + 6 * rng.choice([0, 0, 0, 1, 2]))
     res = read_filtered(path, types, tr, sources, max_bytes, flags, require_p1, style)
     rt = rc.range_text(tr)                 # what the constructed TimeRange object says (input of the literal model)
     it = intent_text(trd)                  # what was asked for (input of the specification)
@@ -269,6 +298,31 @@ def run(ctx, budget):
         if rng.random() < (0.5 if ctx.thorough else 0.12):
             for flags in itertools.product([False, True], repeat=5):
                 one_case(ctx, data, path, msgs, lines, pending, flags=flags)
+    # a byte-limited read as the FIRST reader of a fresh log (no index file yet; small block constants so that the limited
+    # index really is partial) must not influence what later readers of the same file return
+    later = []
+    for k in range(max(3, budget // 8)):
+        data = rc.make_log(rng, rng.choice([6, 10, 16]), sources=(0, 1), junk=(k % 2 == 0))
+        ic.rebind(512, 512)
+        path = ic.write_log(data, 'c10_limited_first_%d.p1log' % k)
+        for f in (os.path.splitext(path)[0] + '.p1i',):
+            if os.path.exists(f):
+                os.remove(f)
+        mb = rng.choice([200, 400, 600, max(1, len(data) // 2)])
+        first = read_filtered(path, None, None, None, mb, (False, False, False, True, False))
+        after = read_filtered(path, None, None, None, None, (False, False, False, True, False))
+        ic.rebind(80 * 1024, 16 * 1024)
+        later.append(({'file': data.hex(), 'first_reader_max_bytes': mb, 'block_constants': [512, 512]}, first, after, data))
+        ctx.count('byte_limited_first_reader_cases')
+    scans = ctx.driver(['scanfile %s' % d.hex() for _, _, _, d in later]) if later else []
+    for (replay, first, after, d), sc in zip(later, scans):
+        want = [int(x.split(':')[0]) for x in sc.split(',') if x]
+        if after[0] != 'ok':
+            ctx.violation('C10/read-after-byte-limited-read-raised', after[1], replay)
+        elif [int(x[0]) for x in after[1]] != want:
+            ctx.violation('C10/byte-limited-read-leaks-into-later-reads', 'after a first reader with max_bytes=%d, an unfiltered reader of the '
+                          'same file returns offsets %s; the file holds messages at %s' % (replay['first_reader_max_bytes'],
+                                                                                          [int(x[0]) for x in after[1]][:12], want[:12]), replay)
     outs = ctx.driver(lines)
     for i, p in enumerate(pending):
         judge(ctx, *p, outs[2 * i], outs[2 * i + 1])
